@@ -92,7 +92,7 @@ Record pst := { p_stack : list (list sexp); p_top : list sexp; p_atom : option (
 Definition flush_atom (st : pst) : pst :=
   match p_atom st with
   | None => st
-  | Some a => {| p_stack := p_stack st; p_top := atom_of_chars (rev a) :: p_top st; p_atom := None |}
+  | Some a => {| p_stack := p_stack st; p_top := atom_of_chars (rev_append a []) :: p_top st; p_atom := None |}
   end.
 
 Definition pstep (st : pst) (c : N) : pst :=
@@ -103,7 +103,7 @@ Definition pstep (st : pst) (c : N) : pst :=
     let st := flush_atom st in
     match p_stack st with
     | [] => st
-    | parent :: rest => {| p_stack := rest; p_top := SList (rev (p_top st)) :: parent; p_atom := None |}
+    | parent :: rest => {| p_stack := rest; p_top := SList (rev_append (p_top st) []) :: parent; p_atom := None |}
     end
   else if c =? ch_sp then flush_atom st
   else {| p_stack := p_stack st; p_top := p_top st;
